@@ -112,3 +112,34 @@ Proof.
   rewrite Nat.ltb_irrefl. reflexivity.
 Qed.
 Print Assumptions C03_termination_example.
+
+(* The per-item flags and the first graph.  For every monotone table whose methods visit all the children of their class
+   ([visit_all_ok]: decidable, re-proved for the extracted table on every run), every grammar and every rule order:
+   after the analysis a NamedItem of the grammar is flagged nullable EXACTLY when the pure reading of the table, with the
+   final (least) rule flags, says so -- the flag is not an artefact of the moment at which the item happened to be
+   visited.  (Upper bound: invariant of all passes; lower bound: the last pass visits every rule, the table-driven
+   visitor reaches every NamedItem inside it, Proofs/VisitAll.v, and computes at least the pure value there.) *)
+From Pegen Require Import Proofs.VisitAll Proofs.NullableItems.
+Theorem C03_item_flags_are_exact : forall methods iter_fields rs st,
+  monotone_tbl methods = true -> NoDup (map rname rs) -> visit_all_ok methods iter_fields = true -> ids_consistent rs ->
+  compute_nullables methods iter_fields rs = Some st ->
+  forall r n, In r rs -> In n (inside_rhs (rrhs r)) ->
+  memN (ni_id n) (n_items st) = pvi methods rs (flags_of st) (ni_item n).
+Proof. intros m itf rs st Hm Hn Hv Hi Hc. exact (item_flags_exact m itf rs Hm Hn Hv st Hi Hc). Qed.
+Print Assumptions C03_item_flags_are_exact.
+
+(* Hence every row of the first graph -- the rules a rule may invoke at its initial position, which decide what is
+   left-recursive -- is the same whatever the order in which the rules are written. *)
+Theorem C03_first_graph_order_independent : forall methods iter_fields rs rs' st st',
+  monotone_tbl methods = true -> visit_all_ok methods iter_fields = true ->
+  NoDup (map rname rs) -> Permutation rs rs' -> ids_consistent rs ->
+  compute_nullables methods iter_fields rs = Some st ->
+  compute_nullables methods iter_fields rs' = Some st' ->
+  forall r, In r rs ->
+  in_rhs (fun k => memN k (n_items st)) (rrhs r) = in_rhs (fun k => memN k (n_items st')) (rrhs r).
+Proof. intros m itf rs rs' st st' Hm Hv. exact (first_graph_order_independent m itf Hm Hv rs rs' st st'). Qed.
+Print Assumptions C03_first_graph_order_independent.
+
+Example C03_table_visits_everything : visit_all_ok tbl itf = true.
+Proof. vm_compute. reflexivity. Qed.
+Print Assumptions C03_table_visits_everything.
